@@ -42,22 +42,22 @@ package goose
 
 //@ props C02 C07
 
-//@ func (errorReporter).prefixed
+//@ func (errorReporter).prefixed (r, prefix, n, msg, args)
 //@   noreturn
 //@   structured
-//@ func (errorReporter).nope
+//@ func (errorReporter).nope (r, n, msg, args)
 //@   noreturn
 //@   structured
-//@ func (errorReporter).noExample
+//@ func (errorReporter).noExample (r, n, msg, args)
 //@   noreturn
 //@   structured
-//@ func (errorReporter).futureWork
+//@ func (errorReporter).futureWork (r, n, msg, args)
 //@   noreturn
 //@   structured
-//@ func (errorReporter).todo
+//@ func (errorReporter).todo (r, n, msg, args)
 //@   noreturn
 //@   structured
-//@ func (errorReporter).unsupported
+//@ func (errorReporter).unsupported (r, n, msg, args)
 //@   noreturn
 //@   structured
 
@@ -65,11 +65,11 @@ package goose
 
 //@ props C07
 
-//@ func (Ctx).sliceElem
+//@ func (Ctx).sliceElem (ctx, n, t)
 //@   may_reject
 //@   noframe
 //@   ensures [returns only for slice types; anything else is rejected] typeis(t, *types.Slice)
-//@ func (Ctx).ptrElem
+//@ func (Ctx).ptrElem (ctx, n, t)
 //@   may_reject
 //@   noframe
 //@   ensures [returns only for pointer types; anything else is rejected] typeis(t, *types.Pointer)
@@ -80,31 +80,31 @@ package goose
 //@ assume func go/constant.StringVal (x)
 //@   requires [the constant is a string (StringVal panics otherwise)] ckind(x) == constant.String
 //@   ensures result == pure(string, "go/constant.StringVal", x)
-//@ func stringLitValue
+//@ func stringLitValue (lit)
 //@   requires [literal is a string] lit.Kind == token.STRING
 //@   may_reject
 //@   noframe
-//@ func (*cursor).Next
+//@ func (*cursor).Next (c)
 //@   requires [cursor is not empty] len(c.Stmts) > 0
 //@   may_reject
 //@   ensures result == old(c.Stmts[0]) && c.Stmts == old(c.Stmts[1:])
 //@   modifies c.Stmts
-//@ func (Ctx).setPtrWrapped
+//@ func (Ctx).setPtrWrapped (ctx, ident)
 //@   trusted_requires [Ctx is built by NewPkgCtx/NewCtx, which allocate the map] ctx.idents.isPtrWrapped != nil
 //@   may_reject
-//@ func sortedFiles
+//@ func sortedFiles (fileNames, fileAsts)
 //@   trusted_requires [x/tools: Syntax parallels CompiledGoFiles] len(fileNames) == len(fileAsts)
 //@   may_reject
-//@ func sortedFiles$1
+//@ func sortedFiles$1 (i, j)
 //@   trusted_requires [sort.Slice passes valid indices] 0 <= i && i < len(*flatFiles) && 0 <= j && j < len(*flatFiles)
 //@   may_reject
-//@ func (Ctx).constDecl
+//@ func (Ctx).constDecl (ctx, d)
 //@   requires [called for const declarations] d.Tok == token.CONST
 //@   may_reject
-//@ func (Ctx).globalVarDecl
+//@ func (Ctx).globalVarDecl (ctx, d)
 //@   requires [called for var declarations] d.Tok == token.VAR
 //@   may_reject
-//@ func (Ctx).imports
+//@ func (Ctx).imports (ctx, d)
 //@   also C02 C08
 //@   requires [called with the specs of an import declaration] forall i int :: 0 <= i && i < len(d) ==> typeis(d[i], *ast.ImportSpec)
 //@   may_reject
@@ -117,95 +117,95 @@ package goose
 
 //@ props C02 C07
 
-//@ func (Ctx).stmts
+//@ func (Ctx).stmts (ctx, ss, usage)
 //@   requires [usage is one of the three modes] usage == ExprValLocal || usage == ExprValReturned || usage == ExprValLoop
 //@   may_reject
-//@ func (Ctx).blockStmt
+//@ func (Ctx).blockStmt (ctx, s, usage)
 //@   requires [usage is one of the three modes] usage == ExprValLocal || usage == ExprValReturned || usage == ExprValLoop
 //@   may_reject
-//@ func (Ctx).stmt
+//@ func (Ctx).stmt (ctx, s)
 //@   may_reject
-//@ func (Ctx).stmtInBlock
+//@ func (Ctx).stmtInBlock (ctx, s, usage)
 //@   requires [usage is one of the three modes] usage == ExprValLocal || usage == ExprValReturned || usage == ExprValLoop
 //@   may_reject
 //@   ensures [local usage is always finalized] usage == ExprValLocal ==> result.1
 //@   ensures [return only where a return is available] typeis(s, *ast.ReturnStmt) ==> usage == ExprValReturned
 //@   ensures [break/continue only directly in a loop body] typeis(s, *ast.BranchStmt) ==> usage == ExprValLoop
 //@   ensures [only supported statement kinds] typeis(s, *ast.ReturnStmt) || typeis(s, *ast.BranchStmt) || typeis(s, *ast.IfStmt) || typeis(s, *ast.BlockStmt) || typeis(s, *ast.GoStmt) || typeis(s, *ast.ExprStmt) || typeis(s, *ast.AssignStmt) || typeis(s, *ast.DeclStmt) || typeis(s, *ast.IncDecStmt) || typeis(s, *ast.ForStmt) || typeis(s, *ast.RangeStmt)
-//@ func (Ctx).ifStmt
+//@ func (Ctx).ifStmt (ctx, s, remainder, usage)
 //@   requires [usage is one of the three modes] usage == ExprValLocal || usage == ExprValReturned || usage == ExprValLoop
 //@   may_reject
 //@   ensures [no if-statement initializer] s.Init == nil
-//@ func (Ctx).assignStmt
+//@ func (Ctx).assignStmt (ctx, s)
 //@   may_reject
 //@   ensures [only supported assignment operators] s.Tok == token.DEFINE || s.Tok == token.ASSIGN || s.Tok == token.ADD_ASSIGN || s.Tok == token.SUB_ASSIGN || s.Tok == token.OR_ASSIGN || s.Tok == token.AND_ASSIGN || s.Tok == token.XOR_ASSIGN
 //@   ensures [operator assignment has a single target] s.Tok != token.DEFINE && s.Tok != token.ASSIGN ==> len(s.Lhs) == 1
-//@ func (Ctx).multipleAssignStmt
+//@ func (Ctx).multipleAssignStmt (ctx, s)
 //@   may_reject
 //@   ensures [one call on the right, plain assignment] len(s.Rhs) == 1 && s.Tok == token.ASSIGN
-//@ func (Ctx).defineStmt
+//@ func (Ctx).defineStmt (ctx, s)
 //@   may_reject
 //@   ensures [single right-hand side] len(s.Rhs) == 1
 //@   ensures [every target is an identifier] forall i int :: 0 <= i && i < len(s.Lhs) ==> typeis(s.Lhs[i], *ast.Ident)
 //@   ensures [at most four results can be destructured] len(s.Lhs) <= 4
 //@   loop 1 invariant [targets so far are identifiers] forall i int :: 0 <= i && i <= rangeindex ==> typeis(s.Lhs[i], *ast.Ident)
 //@   loop 1 invariant [one identifier per target so far] len(idents) == rangeindex + 1
-//@ func (Ctx).sliceExpr
+//@ func (Ctx).sliceExpr (ctx, e)
 //@   may_reject
 //@   ensures [no 3-index slices, no complete slice] !e.Slice3 && e.Max == nil && !(e.Low == nil && e.High == nil)
-//@ func (Ctx).branchStmt
+//@ func (Ctx).branchStmt (ctx, s)
 //@   may_reject
 //@   ensures [only break and continue] s.Tok == token.BREAK || s.Tok == token.CONTINUE
-//@ func (Ctx).goStmt
+//@ func (Ctx).goStmt (ctx, e)
 //@   may_reject
 //@   ensures [go only of an argument-less function literal] len(e.Call.Args) == 0 && typeis(e.Call.Fun, *ast.FuncLit)
-//@ func (Ctx).spawnExpr
+//@ func (Ctx).spawnExpr (ctx, thread)
 //@   may_reject
 //@   ensures [only function literals are spawned] typeis(thread, *ast.FuncLit)
-//@ func (Ctx).loopVar
+//@ func (Ctx).loopVar (ctx, s)
 //@   may_reject
 //@   ensures [loop initialisation is a single := of one identifier] typeis(s, *ast.AssignStmt) && s.(*ast.AssignStmt).Tok == token.DEFINE && len(s.(*ast.AssignStmt).Lhs) == 1 && len(s.(*ast.AssignStmt).Rhs) == 1 && typeis(s.(*ast.AssignStmt).Lhs[0], *ast.Ident)
-//@ func (Ctx).incDecStmt
+//@ func (Ctx).incDecStmt (ctx, stmt)
 //@   may_reject
 //@   ensures [only variables are incremented] typeis(stmt.X, *ast.Ident)
-//@ func (Ctx).unaryExpr
+//@ func (Ctx).unaryExpr (ctx, e)
 //@   may_reject
 //@   ensures [only !, ^ and & are supported] e.Op == token.NOT || e.Op == token.XOR || e.Op == token.AND
-//@ func (Ctx).binExpr
+//@ func (Ctx).binExpr (ctx, e)
 //@   may_reject
 //@   ensures [only operators of the table] e.Op == token.ADD || e.Op == token.LSS || e.Op == token.GTR || e.Op == token.SUB || e.Op == token.EQL || e.Op == token.NEQ || e.Op == token.MUL || e.Op == token.QUO || e.Op == token.REM || e.Op == token.LEQ || e.Op == token.GEQ || e.Op == token.AND || e.Op == token.LAND || e.Op == token.OR || e.Op == token.LOR || e.Op == token.XOR || e.Op == token.SHL || e.Op == token.SHR
-//@ func (Ctx).field
+//@ func (Ctx).field (ctx, f)
 //@   may_reject
 //@   ensures [exactly one name per field] len(f.Names) == 1
-//@ func (Ctx).typeDecl
+//@ func (Ctx).typeDecl (ctx, doc, spec)
 //@   may_reject
 //@   ensures [no generic named types] spec.TypeParams == nil
-//@ func (Ctx).varSpec
+//@ func (Ctx).varSpec (ctx, s)
 //@   may_reject
 //@   ensures [one variable per declaration] len(s.Names) == 1
-//@ func (Ctx).varDeclStmt
+//@ func (Ctx).varDeclStmt (ctx, s)
 //@   may_reject
 //@   ensures [a single var declaration] typeis(s.Decl, *ast.GenDecl) && s.Decl.(*ast.GenDecl).Tok == token.VAR && len(s.Decl.(*ast.GenDecl).Specs) == 1
-//@ func (Ctx).constSpec
+//@ func (Ctx).constSpec (ctx, spec)
 //@   may_reject
 //@   ensures [constants have a value] len(spec.Values) >= 1
-//@ func (Ctx).basicLiteral
+//@ func (Ctx).basicLiteral (ctx, e)
 //@   may_reject
 //@   ensures [only string and integer literals] e.Kind == token.STRING || e.Kind == token.INT
 //@   also C05
 //@   ensures [string literals contain no double quote] e.Kind == token.STRING ==> !contains(pure(string, "go/constant.StringVal", ctx.info.Types[ast.Expr(e)].Value), "\"")
-//@ func (Ctx).exprSpecial
+//@ func (Ctx).exprSpecial (ctx, e, isSpecial)
 //@   may_reject
 //@   ensures [type assertions are not silently dropped] !typeis(e, *ast.TypeAssertExpr)
 //@   ensures [only supported expression kinds] typeis(e, *ast.CallExpr) || typeis(e, *ast.MapType) || typeis(e, *ast.Ident) || typeis(e, *ast.SelectorExpr) || typeis(e, *ast.CompositeLit) || typeis(e, *ast.BasicLit) || typeis(e, *ast.BinaryExpr) || typeis(e, *ast.SliceExpr) || typeis(e, *ast.IndexExpr) || typeis(e, *ast.UnaryExpr) || typeis(e, *ast.ParenExpr) || typeis(e, *ast.StarExpr) || typeis(e, *ast.TypeAssertExpr) || typeis(e, *ast.FuncLit)
-//@ func (Ctx).rangeStmt
+//@ func (Ctx).rangeStmt (ctx, s)
 //@   may_reject
 //@   ensures [range variables are declared by the loop, not assigned] s.Tok == token.DEFINE || (s.Key == nil && s.Value == nil)
-//@ func (Ctx).returnType
+//@ func (Ctx).returnType (ctx, results)
 //@   may_reject
 //@   ensures [no named results] results == nil || forall i int :: 0 <= i && i < len(results.List) ==> len(results.List[i].Names) == 0
 //@   loop 1 invariant [results so far are unnamed] forall i int :: 0 <= i && i <= rangeindex ==> len(rs[i].Names) == 0
-//@ func (Ctx).compositeLiteral
+//@ func (Ctx).compositeLiteral (ctx, e)
 //@   may_reject
 //@   ensures [slice literals have at most one element] typeis(pure(types.Type, "(go/types.Type).Underlying", pure(types.Type, "(*go/types.Info).TypeOf", ctx.info, ast.Expr(e))), *types.Slice) ==> len(e.Elts) <= 1
 
@@ -224,21 +224,21 @@ package goose
 
 // callExpr dispatches on the builtins: under C02 as well, so that the look-alike preconditions of
 // lenExpr/capExpr/makeExpr are obligations of that property at the dispatching calls.
-//@ func (Ctx).callExpr
+//@ func (Ctx).callExpr (ctx, s)
 //@   may_reject
 //@   noframe
 //@   use ast
-//@ func (Ctx).isBuiltin
+//@ func (Ctx).isBuiltin (ctx, e, name)
 //@   ensures [true exactly for the identifier `name` denoting the predeclared object] result <==> (typeis(e, *ast.Ident) && e.(*ast.Ident).Name == name && univ(ctx.info, e))
 //@   modifies nothing
-//@ func (Ctx).makeExpr
+//@ func (Ctx).makeExpr (ctx, args)
 //@   requires [type checker: a call of the universe make has at least one argument] len(args) >= 1
 //@   may_reject
-//@ func (Ctx).lenExpr
+//@ func (Ctx).lenExpr (ctx, e)
 //@   requires [len denotes the universe builtin, not a user-defined look-alike] isuniverse(ctx, e.Fun)
 //@   trusted_requires [type checker: a call of the universe len has exactly one argument] len(e.Args) == 1
 //@   may_reject
-//@ func (Ctx).capExpr
+//@ func (Ctx).capExpr (ctx, e)
 //@   requires [cap denotes the universe builtin, not a user-defined look-alike] isuniverse(ctx, e.Fun)
 //@   trusted_requires [type checker: a call of the universe cap has exactly one argument] len(e.Args) == 1
 //@   may_reject
@@ -247,12 +247,12 @@ package goose
 
 //@ props C06 C07 C17
 
-//@ func (TranslationConfig).TranslatePackages$1
+//@ func (TranslationConfig).TranslatePackages$1 (i, pkg)
 //@   requires [worker i writes only its own result slots, which exist] 0 <= i && i < len(*files) && i < len(*errs)
 //@   requires [the two result arrays are different objects] ref(*files) != ref(*errs)
 //@   may_reject
 //@   modifies elems(*files, i, i+1), elems(*errs, i, i+1), fresh
-//@ func (TranslationConfig).TranslatePackages
+//@ func (TranslationConfig).TranslatePackages (tr, modDir, pkgPattern)
 //@   may_reject
 //@   ensures [one file and one error slot per matched package] result.2 == nil ==> len(result.0) == len(result.1) && len(result.0) >= 1
 //@   ensures [a pattern error yields no files] result.2 != nil ==> len(result.0) == 0 && len(result.1) == 0
@@ -263,7 +263,7 @@ package goose
 // translatePackage writes only memory it allocates itself (and reads the shared,
 // immutable package graph). The frame is not an SMT obligation here: it is
 // established by the store sweep of property C06 over the static call graph.
-//@ func (TranslationConfig).translatePackage
+//@ func (TranslationConfig).translatePackage (tr, pkg)
 //@   also C08
 //@   may_reject
 //@   modifies fresh
@@ -281,25 +281,25 @@ package goose
 
 //@ props C04
 
-//@ func (*depTracker).addDep
+//@ func (*depTracker).addDep (dt, s)
 //@   ensures [dependency recorded in the list] len(dt.deps) == old(len(dt.deps)) + 1 && elemat(dt.deps, dt.deps.off + old(len(dt.deps))) == s
 //@   ensures [dependency list is append-only] forall j int :: 0 <= j && j < old(len(dt.deps)) ==> dt.deps[j] == old(dt.deps[j])
 //@   ghost_ensures depset == old(depset)[ref(dt) := old(depset)[ref(dt)][s := true]]
 //@   modifies dt.deps, elems(dt.deps, len(dt.deps), cap(dt.deps)), depset
-//@ func (Ctx).coqRecurFunc
+//@ func (Ctx).coqRecurFunc (ctx, fullFuncName, e)
 //@   requires [dependency on the called function is recorded by the caller] depset[ref(ctx.dep)][fullFuncName]
 //@   may_reject
-//@ func (Ctx).structSelector
+//@ func (Ctx).structSelector (ctx, info, e)
 //@   may_reject
 //@   ensures [dependency on the struct recorded] depset[ref(ctx.dep)][info.name]
-//@ func (Ctx).structLiteral
+//@ func (Ctx).structLiteral (ctx, info, e)
 //@   may_reject
 //@   ensures [dependency on the struct recorded] depset[ref(ctx.dep)][info.name]
 
 // A dependency is recorded only for names the output mentions: a pointer type is erased to ptrT
 // (its pointee is not mentioned), so translating `*T` records nothing. A spurious edge could close
 // a cycle in the recorded graph of a package whose real dependency graph is acyclic.
-//@ func (Ctx).coqType
+//@ func (Ctx).coqType (ctx, e)
 //@   may_reject
 //@   noframe
 //@   use ast
@@ -329,13 +329,13 @@ package goose
 //@ ghost func namesvalid(nd map[string]declId, n int) bool = forall s string :: has(nd, s) ==> 0 <= nd[s].fileIdx && nd[s].fileIdx < n
 //@ ghost func depsalloc(dd map[declId][]string) bool = forall x declId :: has(dd, x) && len(dd[x]) > 0 ==> allocated(dd[x])
 
-//@ func filterImports
+//@ func filterImports (decls)
 //@   ensures [C04 imports and the other declarations partition the group: nothing is dropped] len(result.0) + len(result.1) == len(decls)
 //@   modifies fresh(coq.Decl, coq.ImportDecl)
 //@   loop 1 invariant [C04 every declaration so far is kept] len(nonImports) + len(imports) == rangeindex + 1 && rangeindex < len(decls)
 //@   loop 1 invariant [C04 frame: nothing that existed before is written] modifies_only(fresh(coq.Decl, coq.ImportDecl))
 //@   loop 1 invariant [C04 the results are built in storage of their own] (cap(nonImports) == 0 || fresh(nonImports)) && (cap(imports) == 0 || fresh(imports))
-//@ func (Ctx).Decls$1
+//@ func (Ctx).Decls$1 (id, ident)
 //@   also C07
 //@   use finite
 //@   funcvalue processDecl = (Ctx).Decls$1
@@ -377,7 +377,7 @@ package goose
 //@   loop 1 invariant [C04 in progress: the same plus this one] forall s declId :: {emitted[s]} (gen(g, s) && !emitted[s]) <==> (old(gen(g, s) && !emitted[s]) || s == id)
 //@   loop 1 invariant [C04 only generated declarations are emitted] forall s declId :: {emitted[s]} emitted[s] ==> gen(g, s)
 
-//@ func (Ctx).Decls
+//@ func (Ctx).Decls (ctx, fs)
 //@   funcvalue processDecl = (Ctx).Decls$1
 //@   may_reject
 //@   ensures [C04 every declaration of every file is emitted] forall a int, b int :: 0 <= a && a < len(fs) && 0 <= b && b < len(fs[a].Ast.Decls) ==> emitted[struct(declId, a, b)]
@@ -421,9 +421,9 @@ package goose
 // package graph find the same FFIs is assumed (packages.Visit is not under contract).
 //@ ghost func ffcount(pkg *packages.Package) int
 
-//@ func ffisUsed$1
+//@ func ffisUsed$1 (pkg)
 //@   ensures [the walk does not descend into FFI packages] result == !has(ffiMapping, pkg.PkgPath)
-//@ func ffisUsed$2
+//@ func ffisUsed$2 (pkg)
 //@   requires [map allocated by ffisUsed] *seenFfis != nil
 //@   ensures [an FFI package contributes its FFI] has(ffiMapping, pkg.PkgPath) ==> has(*seenFfis, ffiMapping[pkg.PkgPath])
 //@   ensures [nothing is removed] forall v string :: old(has(*seenFfis, v)) ==> has(*seenFfis, v)
@@ -432,19 +432,19 @@ package goose
 //@ assume func ffisUsed (pkg)
 //@   allocates
 //@   ensures [a fresh map whose size is a function of the package graph] result != nil && fresh(result) && len(result) == ffcount(pkg)
-//@ func getFfi
+//@ func getFfi (pkg)
 //@   also C06
 //@   panics_iff [two different FFIs are refused] ffcount(pkg) > 1
 //@   ensures_local [the unique FFI seen, or none] result == "none" || has(seenFfis, result)
 //@   ensures_local [two different FFIs are refused] len(seenFfis) <= 1
 //@   ensures_local [none only if no FFI was seen] result == "none" ==> len(seenFfis) == 0 || has(seenFfis, "none")
 //@   noframe
-//@ func ffiHeaderFooter
+//@ func ffiHeaderFooter (ffi)
 //@   ensures [no FFI: generic ext_types section with its closing footer] ffi == "none" ==> result.0 == "Section code.\nContext `{ext_ty: ext_types}.\nLocal Coercion Var' s: expr := Var s." && result.1 == "\nEnd code.\n"
 //@   ensures [FFI prelude import, no footer] ffi != "none" ==> result.0 == "From Perennial.goose_lang Require Import ffi." + ffi + "_prelude." && result.1 == ""
 
 //@ props C17
-//@ func newPackageConfig
+//@ func newPackageConfig (modDir)
 //@   ensures [packages are loaded from -dir with the goose build tag] result.Dir == modDir && len(result.BuildFlags) == 2 && result.BuildFlags[0] == "-tags" && result.BuildFlags[1] == "goose"
 //@   ensures [names, files, imports, types and syntax are loaded] result.Mode & (packages.NeedName | packages.NeedCompiledGoFiles | packages.NeedImports | packages.NeedTypes | packages.NeedSyntax | packages.NeedTypesInfo) == (packages.NeedName | packages.NeedCompiledGoFiles | packages.NeedImports | packages.NeedTypes | packages.NeedSyntax | packages.NeedTypesInfo)
 //@   noframe
@@ -456,10 +456,10 @@ package goose
 
 //@ props C02
 
-//@ func (Ctx).stmtsEndWithReturn
+//@ func (Ctx).stmtsEndWithReturn (ctx, ss)
 //@   may_reject
 //@   ensures [an if without else can fall through: it never always returns] result && len(ss) > 0 && typeis(ss[len(ss)-1], *ast.IfStmt) ==> ss[len(ss)-1].(*ast.IfStmt).Else != nil
 //@   ensures [only a return, break/continue or two-armed if ends a block that always returns] result ==> len(ss) > 0 && (typeis(ss[len(ss)-1], *ast.ReturnStmt) || typeis(ss[len(ss)-1], *ast.BranchStmt) || typeis(ss[len(ss)-1], *ast.IfStmt))
-//@ func (Ctx).endsWithReturn
+//@ func (Ctx).endsWithReturn (ctx, s)
 //@   may_reject
 //@   ensures [nothing always returns] result ==> s != nil
